@@ -207,7 +207,9 @@ class TransformAttrMethod(AttrMethodDescriptor):
         def old_value():
             value = getattr(self, attr_spec.name, MISSING)
             own_spec = self.__spec_class__.attrs.get(attr_spec.name, attr_spec)
-            if _inplace or own_spec.do_not_copy:
+            if _inplace or own_spec.do_not_copy or own_spec.is_masked:
+                # (a masked attribute -- property, alias -- hands out what some
+                # other attribute or the descriptor itself is responsible for)
                 return value
             # The transform may build its result out of what it is handed (a
             # new list holding the old items, say): hand it a private copy,
